@@ -335,6 +335,12 @@ func (n *AbsfsNFS) UpdateExportOptions(newOptions ExportOptions) error {
 		return fmt.Errorf("nil server")
 	}
 
+	// Squash cannot be changed at runtime. Reject such an update before
+	// anything is applied, so that a rejected update changes nothing.
+	if cur := n.policy.Load(); newOptions.Squash != "" && newOptions.Squash != cur.Squash {
+		return fmt.Errorf("cannot change Squash mode at runtime (requires restart)")
+	}
+
 	// Apply tuning changes (lock-free, immediate).
 	// Use tuningFromExportOptions for complete field coverage.
 	// Preserve Timeouts and Log from the current snapshot when not provided,
